@@ -158,5 +158,29 @@ theorem echelon_support (t : STab) (piv : Nat → Nat) (he : Echelon t piv) (S :
     · have := (he.sorted i0 i (by omega) hi).1
       omega
 
+/-! ### executable checks of the hypotheses (for concrete examples) -/
+
+/-- boolean check of `Good` -/
+def goodB (t : STab) : Bool :=
+  (List.range t.n).all fun i => (t.row i).ip == false && (List.range t.n).all fun k => sp t.n (t.row i) (t.row k) == false
+
+theorem good_of_goodB (t : STab) (h : t.goodB = true) : t.Good := by
+  unfold goodB at h
+  rw [List.all_eq_true] at h
+  constructor
+  · intro i hi
+    have := h i (List.mem_range.2 hi)
+    simp only [Bool.and_eq_true, beq_iff_eq] at this
+    exact this.1
+  · intro i k hi hk
+    have := h i (List.mem_range.2 hi)
+    simp only [Bool.and_eq_true, beq_iff_eq, List.all_eq_true] at this
+    exact this.2 k (List.mem_range.2 hk)
+
+theorem eqOn_of_beqOn (n : Nat) (a b : PRow) (h : PRow.beqOn n a b = true) : PRow.EqOn n a b := by
+  unfold PRow.beqOn at h
+  simp only [Bool.and_eq_true, List.all_eq_true, beq_iff_eq, List.mem_range] at h
+  exact ⟨fun j hj => h.1.1 j hj, h.1.2, h.2⟩
+
 end STab
 end Graphiq
